@@ -16,7 +16,8 @@ META = dict(
     text="Streams of 1-200 messages (payload lengths at every block-size boundary, 255/256, 32 KiB and 64 KiB "
          "edges, up to 70000, random) are sent through a real keyed Packetizer for every cipher x MAC x "
          "compression combination the tree offers, in both roles, with 1-4 key epochs per stream (in-band NEWKEYS, "
-         "optionally changing the suite, optionally strict-kex counter resets), delayed zlib@openssh.com switch-on, "
+         "optionally changing the suite, optionally strict-kex counter resets; the reverse direction of both Packetizers "
+         "is keyed too, with an independently drawn suite so that every inbound x outbound framing-family pair occurs), delayed zlib@openssh.com switch-on, "
          "partial socket writes, socket.timeout/EAGAIN between any two reads or writes, a re-key pending on the receiver "
          "(scaled thresholds; NeedRekeyException handled as Transport.run does), an identification line whose over-read "
          "sits in the remainder buffer, packet counters started next to the 32-bit wrap, and are read back by a second real "
@@ -45,6 +46,7 @@ def shards(tier):
 TIMEOUT = {"quick": 400, "thorough": 1500}
 
 FRAGS = ("whole", "byte", "small", "random", "edges")
+BYFAM = pb.suites_by_family()
 
 
 def tree_bs(cipher):
@@ -83,6 +85,8 @@ def plan_stream(rng, cipher, mac, comp, role, suites, quick):
     epochs = [(cipher, mac)]
     for _ in range(extra):
         epochs.append(rng.choice(suites) if rng.random() < 0.3 else (cipher, mac))
+    # reverse-direction suite per epoch, drawn independently (family cycles with the draw counter)
+    rev_epochs = [pb.draw_reverse(rng, rng.randrange(3), BYFAM) for _ in epochs]
     want_auth = rng.random() < (0.85 if comp == "zlib@openssh.com" else 0.2)
     auth_at = rng.randint(0, nm) if want_auth else None
     strict = rng.random() < 0.3
@@ -98,7 +102,7 @@ def plan_stream(rng, cipher, mac, comp, role, suites, quick):
         if frag == "whole":
             frag = rng.choice(["byte", "small", "edges", "random"] if total <= 40000 else ["edges", "random"])
     plan_rx_rekey = rx_rekey
-    return dict(rx_rekey=plan_rx_rekey, cipher=cipher, mac=mac, comp=comp, role=role, lens=lens, rekey_at=rekey_at, epochs=epochs,
+    return dict(rx_rekey=plan_rx_rekey, rev_epochs=rev_epochs, cipher=cipher, mac=mac, comp=comp, role=role, lens=lens, rekey_at=rekey_at, epochs=epochs,
                 auth_at=auth_at, strict=strict, seq0=seq0, frag=frag,
                 partial=rng.random() < 0.2, compressible=rng.random() < 0.5,
                 banner=rng.random() < 0.15, rx_hiccups=(rx_rekey is not None) or rng.random() < 0.15,
@@ -111,19 +115,19 @@ def run_plan(rng, p):
     b = pb.Bench(rng, p["cipher"], p["mac"], p["comp"], sender_role=p["role"], strict=p["strict"],
                  hash_name=p["hash"], accept=accept, seq0=p["seq0"],
                  hiccup=hiccups(rng, 0.15) if p["tx_hiccups"] else None)
-    b.rekey()
+    b.rekey(rev=p["rev_epochs"][0])
     ep = 1
     for i, n in enumerate(p["lens"]):
         while ep < len(p["epochs"]) and p["rekey_at"][ep - 1] <= i:
             c, m = p["epochs"][ep]
-            b.rekey(cipher=c, mac=m)
+            b.rekey(cipher=c, mac=m, rev=p["rev_epochs"][ep])
             ep += 1
         if p["auth_at"] == i:
             b.auth()
         b.send(pb.rand_payload(rng, n, p["compressible"]))
     while ep < len(p["epochs"]):
         c, m = p["epochs"][ep]
-        b.rekey(cipher=c, mac=m)
+        b.rekey(cipher=c, mac=m, rev=p["rev_epochs"][ep])
         b.send(pb.rand_payload(rng, rng.randint(1, 80)))
         ep += 1
     return b
@@ -173,6 +177,8 @@ def judge_stream(ctx, rng, p, b):
         ctx.inconclusive("bench could not read its own identification line: %r" % (outcome[1],))
         return
     ctx.count("streams_decoded")
+    for (fc, fm), (rc, rm) in zip(p["epochs"], p["rev_epochs"]):
+        ctx.count("epochs_rx_in_%s_out_%s" % (mode_of(fc, fm), mode_of(rc, rm)))
     ctx.count("socket_hiccups_injected", rx.sock.hiccups + b.sock.hiccups)
     if p["banner"]:
         ctx.count("streams_with_banner_remainder")
@@ -362,7 +368,7 @@ def run(ctx):
                 break
             p = plan_stream(rng, c, m, comp, role, suites, ctx.quick)
             fp = (c, m, comp, role, p["strict"], tuple(p["lens"]), tuple(p["rekey_at"]), tuple(p["epochs"]),
-                  p["auth_at"], p["seq0"], p["frag"], p["partial"], p["hash"], p["banner"], p["rx_hiccups"], p["tx_hiccups"], p["rx_rekey"])
+                  p["auth_at"], p["seq0"], p["frag"], p["partial"], p["hash"], p["banner"], p["rx_hiccups"], p["tx_hiccups"], p["rx_rekey"], tuple(p["rev_epochs"]))
             ctx.case(fp, sample=describe(p) if (rep == 0 and i < 24) else None)
             ctx.count("combo_%s_comp_%s" % (mode_of(c, m), "on" if comp != "none" else "off"))
             try:
@@ -387,6 +393,10 @@ def run(ctx):
     ctx.require("aead_counter_steps_seen", 200)
     ctx.require("ref_streams_decoded", 400)
     ctx.require("streams_with_banner_remainder", 50)
+    for fi in pb.FAMILIES:
+        for fo in pb.FAMILIES:
+            if BYFAM[fi] and BYFAM[fo]:
+                ctx.require("epochs_rx_in_%s_out_%s" % (fi, fo), 60)
     ctx.require("needrekey_exceptions_seen", 300)
     ctx.require("headers_split_with_timeout_while_rekey_pending", 300)
     ctx.require("socket_hiccups_injected", 500)
